@@ -95,6 +95,13 @@ def keys_of(t: dict[str, Any]) -> list[str]:
     return out
 
 
+def locks_of(t: dict[str, Any]) -> list[tuple[str, int]]:
+    out = [(t["f"], int(t["n"] or "0", 16))] if t.get("f") in ("older", "after") else []
+    for s_ in t.get("subs", []):
+        out += locks_of(s_)
+    return out
+
+
 def digests_of(t: dict[str, Any]) -> list[tuple[str, str]]:
     out = [(t["f"], t["h"])] if "h" in t else []
     for s in t.get("subs", []):
@@ -226,7 +233,17 @@ def record(run: Run, rnd: random.Random, thorough: bool, evs: list[dict[str, Any
         lock_cases = [(2, 0, 0xFFFFFFFF), (2, 700_000, 2000), (2, 650_000_000, 4194305 + 10), (1, 700_000, 2000), (2, 700_000, 0xFFFFFFFF), (2, 0, 5)]
         subsets = [ks, []] + [list(c) for c in itertools.combinations(ks, 1)] + ([list(c) for c in itertools.combinations(ks, 2)] if len(ks) > 2 else [])
         scen = [(sub, have_pre, lc) for sub in subsets for have_pre in (True, False) for lc in lock_cases]
-        for sub, have_pre, (ver, lt, seq) in (scen if thorough else rnd.sample(scen, min(len(scen), 10))):
+        # never sampled away: with every signature and preimage at hand, the transaction's lock fields on either side of each older() / after() of the
+        # expression -- the value itself, one less, the same low 16 bits under an unused higher bit, the other unit, the disable flag, version 1
+        pivots: list[tuple[int, int, int]] = []
+        for frag, n_ in locks_of(ast):
+            if frag == "older":
+                pivots += [(2, 0, n_), (2, 0, max(n_ - 1, 0)), (2, 0, n_ | 0x10000), (2, 0, max(n_ - 1, 0) | 0x10000), (2, 0, (n_ & 0xFFFF) | 0x20000 | (n_ & 0x400000)), (2, 0, n_ ^ 0x400000),
+                           (2, 0, n_ | 0x80000000), (1, 0, n_), (2, 0, 0x40FFFF), (2, 0, 0xFFFF)]
+            else:
+                pivots += [(2, n_, 0), (2, max(n_ - 1, 0), 0), (2, n_, 0xFFFFFFFF), (2, n_ + 500_000_000 if n_ < 500_000_000 else n_ - 500_000_000, 0), (2, 499_999_999, 0), (2, 500_000_000, 0)]
+        must = [(ks, True, lc) for lc in dict.fromkeys(pivots)]
+        for sub, have_pre, (ver, lt, seq) in (must + scen if thorough else must[: 12] + rnd.sample(scen, min(len(scen), 10))):
             tx = Tx(ver, lt, [TxIn(OutPoint(bytes([7]) * 32, 1), b"", seq)], [TxOut(90_000, ScriptPubKey(bytes.fromhex("0014" + "42" * 20), check_validity=False))], check_validity=False)
             digest = sig_hash.segwit_v0(script, tx, 0, 1, prevout.value)
             sigs = {bytes.fromhex(k): dsa.sign_(digest, key_by_hex[k]).serialize() + b"\x01" for k in sub}
@@ -319,6 +336,148 @@ def record_psbt_route(run: Run, rnd: random.Random, thorough: bool, evs: list[di
     return n
 
 
+TAP_CORPUS = ["pk(A)", "pkh(A)", "multi_a(1,A,B)", "multi_a(2,A,B,C)", "multi_a(3,A,B,C)", "and_v(v:pk(A),pk(B))", "and_v(v:pk(A),multi_a(1,B,C,D,E,F))", "or_d(pk(A),and_v(v:pkh(B),older(10)))",
+              "and_v(v:multi_a(2,A,B,C),after(500000))", "thresh(2,pk(A),s:pk(B),s:pk(C))", "or_b(pk(A),a:multi_a(2,B,C,D))", "andor(pk(A),pk(B),multi_a(1,C,D))", "and_v(v:pk(A),sha256(H))",
+              "or_d(multi_a(2,A,B),and_v(v:pk(C),older(144)))", "thresh(1,pk(A),s:pk(B),s:pk(C),s:pk(D),s:pk(E),s:pk(F))", "or_i(and_v(v:pk(A),hash160(G)),multi_a(2,B,C,D))", "dv:older(7)".replace("dv:older(7)", "and_v(v:pk(A),or_d(pk(B),dv:older(7)))")]
+
+
+def record_tapscript(run: Run, rnd: random.Random, thorough: bool, evs: list[dict[str, Any]]) -> dict[str, int]:
+    """The tapscript context: x-only keys, multi_a, BIP340 signatures over the tapleaf, the spend a taproot script path judged by the specification's engine.
+    Many-key multi_a and thresh expressions put the BIP342 validation-weight budget in play (an empty signature costs nothing)."""
+    from btclib.curves import mult
+    from btclib.descriptors import miniscript
+    from btclib.ecc import ssa
+    from btclib.script import sig_hash, taproot
+    from btclib.script.engine import verify_input
+    from btclib.script.script_pub_key import ScriptPubKey
+    from btclib.script.witness import Witness
+    from btclib.tx import OutPoint, Tx, TxIn, TxOut
+
+    stats = {"expressions": 0, "satisfactions": 0, "refusals": 0}
+    names = "ABCDEFJKLMNPQRSTUVWXYZ"
+    prv = {nm: rnd.randrange(1, N) for nm in names}
+    env = {nm: mult(d)[0].to_bytes(32, "big").hex() for nm, d in prv.items()}
+    pre = {"H": rnd.randbytes(32), "G": rnd.randbytes(32)}
+    env["H"] = hashlib.sha256(pre["H"]).hexdigest()
+    env["G"] = hashlib.new("ripemd160", pre["G"]).hexdigest()
+    key_by_hex = {env[nm]: prv[nm] for nm in prv}
+    big = [f"and_v(v:pk(A),multi_a(1,{','.join(names[1:1 + k])}))" for k in (10, 15, 20)] + [f"thresh(1,pk(A),{','.join('s:pk(' + c + ')' for c in names[1:1 + k])})" for k in (12, 20)]
+    internal = mult(rnd.randrange(1, N))[0].to_bytes(32, "big")
+    for text0 in TAP_CORPUS + big:
+        text = fix_digests(text0, env, pre)
+        full = render(text, env)
+        m = outcome(lambda: miniscript.parse(full, miniscript.TAPSCRIPT))
+        if isinstance(m, str):
+            evs.append({"op": "holds", "what": f"the tapscript corpus expression parses: {text0}: {m}", "ok": False})
+            continue
+        if not m.is_sane:
+            continue
+        ast = tree(text, env)
+        script = m.script()
+        evs.append({"op": "compile", "ast": ast, "script": script.hex(), "size": m.script_size, "reads_back": True, "reparses": outcome(lambda: miniscript.parse(str(m), miniscript.TAPSCRIPT)) == m, "text": "tapscript " + text0})
+        stats["expressions"] += 1
+        ks = sorted(set(keys_of(ast)))
+        ds = sorted(set(digests_of(ast)))
+        lh = taproot.leaf_hash(0xC0, script)
+        outkey, parity = taproot.output_pubkey_from_merkle_root(internal, lh)
+        control = bytes([0xC0 + parity]) + internal
+        spk = ScriptPubKey(b"\x51\x20" + outkey, check_validity=False)
+        prevout = TxOut(100_000, spk, check_validity=False)
+        subsets = [ks, [ks[0]], [ks[-1]], []] + ([ks[:2], ks[1:3]] if len(ks) > 2 else [])
+        locks = [(2, 0, 0xFFFFFFFD)] + [(2, 0, n_) for f_, n_ in locks_of(ast) if f_ == "older"] + [(2, n_, 0) for f_, n_ in locks_of(ast) if f_ == "after"]
+        for sub in subsets:
+            for ver, lt, seq in locks:
+                tx = Tx(ver, lt, [TxIn(OutPoint(bytes([9]) * 32, 1), b"", seq)], [TxOut(90_000, ScriptPubKey(bytes.fromhex("0014" + "42" * 20), check_validity=False))], check_validity=False)
+                digest = sig_hash.taproot(tx, 0, [prevout], 0, 1, b"", lh + b"\x00\xff\xff\xff\xff")
+                sigs = {bytes.fromhex(k): ssa.sign_(digest, key_by_hex[k], bytes(32)).serialize() for k in sub}
+                ctx = miniscript.SpendContext(sha256_preimages={bytes.fromhex(h): pre_for(f, h, env, pre) for f, h in ds if f == "sha256"},
+                                              hash160_preimages={bytes.fromhex(h): pre_for(f, h, env, pre) for f, h in ds if f == "hash160"}, locktime=lt, sequence=seq, version=ver)
+                sat = outcome(lambda: m.satisfy(sigs, ctx))
+                e: dict[str, Any] = {"op": "sat", "ctx": "tapscript", "ast": ast, "script": script.hex(), "idx": 0, "flags": STANDARD, "sigs": sorted(sub), "pre": [h for _, h in ds],
+                                     "prevouts": [{"value": nat(prevout.value), "spk": spk.script.hex()}], "max_ops": -1,
+                                     "max_items": m.max_stack_items if m.max_stack_items is not None else -1, "max_size": m.max_witness_size if m.max_witness_size is not None else -1,
+                                     "text": "tapscript " + text0, "lock": [ver, lt, seq]}
+                if isinstance(sat, str):
+                    e.update({"produced": False, "stack": [], "tx": tx.serialize(include_witness=True, check_validity=False).hex(), "err": sat})
+                    stats["refusals"] += 1
+                else:
+                    tx.vin[0].script_witness = Witness([*sat, script, control])
+                    e.update({"produced": True, "stack": [x.hex() for x in sat], "tx": tx.serialize(include_witness=True, check_validity=False).hex()})
+                    stats["satisfactions"] += 1
+                    evs.append({"op": "holds", "what": f"the library's engine accepts the tapscript satisfaction the library produced for {text0} ({len(sub)} signatures, lock {ver}/{lt}/{seq})",
+                                "ok": outcome(lambda: verify_input([prevout], tx, 0, STANDARD)) is None})
+                evs.append(e)
+    return stats
+
+
+def record_size_limits(run: Run, rnd: random.Random, thorough: bool, evs: list[dict[str, Any]]) -> int:
+    """Expressions whose script is exactly as large as the context allows, one byte less and one byte more (P2WSH: 3600 bytes): the first two compile to
+    the predicted size, read back and re-parse; the third is not valid."""
+    from btclib.curves import mult
+    from btclib.descriptors import miniscript
+    from btclib.hashes import hash160
+
+    keys = []
+    for j in range(1, 112):
+        P = mult(rnd.randrange(1, N))
+        keys.append((bytes([2 + P[1] % 2]) + P[0].to_bytes(32, "big")).hex())
+
+    def build(n_last: int, pads: list[int]) -> str:
+        groups = [f"v:multi(1,{','.join(keys[20 * g:20 * g + 20])})" for g in range(5)]
+        tail = f"multi(1,{','.join(keys[100:100 + n_last])})"
+        parts = groups + [f"v:older({x})" for x in pads]
+        text = tail
+        for part in reversed(parts):
+            text = f"and_v({part},{text})"
+        return text
+
+    n = 0
+    at_limit: tuple[int, list[int]] | None = None
+    for target in (3599, 3600, 3601):
+        found = None
+        for n_last in range(1, 11):
+            for pads in ([], [1], [20], [1, 2], [1, 20], [20, 21], [1, 2, 3], [1, 2, 20], [1, 20, 21], [20, 21, 22], [1, 2, 3, 4], [1, 2, 3, 20], [1, 2, 20, 21], [300, 301, 302], [1, 300, 301, 302]):
+                text = build(n_last, pads)
+                m = outcome(lambda: miniscript.parse(text))
+                size = len(m.script()) if not isinstance(m, str) else outcome(lambda: len(miniscript.parse(text, check_validity=False).script()))
+                if size == target:
+                    found = (text, m)
+                    if target == 3600:
+                        at_limit = (n_last, pads)
+                    break
+            if found:
+                break
+        if not found and target == 3601 and at_limit is not None:
+            # one byte past the limit, by construction: the script of the limit case with one lock written on one byte more (older(17) pushes a byte where older(1) is an opcode)
+            n_last0, pads0 = at_limit
+            grown = [17 if (x <= 16 and j == 0) else x for j, x in enumerate(sorted(pads0))] if pads0 and min(pads0) <= 16 else None
+            if grown is not None:
+                text = build(n_last0, grown)
+                found = (text, outcome(lambda: miniscript.parse(text)))
+        if not found:
+            evs.append({"op": "holds", "what": f"an expression of exactly {target} bytes of script was built by the harness", "ok": False})
+            continue
+        text, m = found
+        if target > 3600:
+            evs.append({"op": "fails", "what": f"an expression whose script is {target} bytes is valid in P2WSH", "ok": (not isinstance(m, str)) and bool(m.is_valid)})
+            n += 1
+            continue
+        if isinstance(m, str):
+            evs.append({"op": "holds", "what": f"an expression whose script is {target} bytes parses: {m}", "ok": False})
+            continue
+        script = m.script()
+        ast = tree(text, {})
+        hashes = {hash160(bytes.fromhex(k)): bytes.fromhex(k) for k in keys_of(ast)}
+        back = outcome(lambda: miniscript.from_script(script, "P2WSH", hashes))
+        reads_back = (not isinstance(back, str)) and back.script() == script and outcome(lambda: miniscript.reads_back(script, "P2WSH", hashes)) is True
+        again = outcome(lambda: miniscript.parse(str(m)))
+        evs.append({"op": "compile", "ast": ast, "script": script.hex(), "size": m.script_size, "reads_back": reads_back, "reparses": (not isinstance(again, str)) and again == m and again.script() == script,
+                    "text": f"{target}-byte script"})
+        evs.append({"op": "holds", "what": f"an expression whose script is {target} bytes (the P2WSH limit is 3600) is valid and sane", "ok": bool(m.is_valid) and bool(m.is_sane)})
+        n += 1
+    return n
+
+
 def record_types(run: Run, rnd: random.Random, thorough: bool, evs: list[dict[str, Any]]) -> dict[str, int]:
     """The library's typing of random expressions, well typed or not, against the specification's table (base type, z o n d u)."""
     from btclib.descriptors import miniscript
@@ -368,6 +527,8 @@ def check(run: Run) -> None:
     s1 = record(run, rnd, thorough, evs)
     n2 = record_psbt_route(run, rnd, thorough, evs)
     s3 = record_types(run, rnd, thorough, evs)
+    s3["size_limits"] = record_size_limits(run, rnd, thorough, evs)
+    s3["tapscript"] = record_tapscript(run, rnd, thorough, evs)
     keep = ("ctx", "valid", "base", "mods", "op", "ast", "script", "size", "reads_back", "reparses", "tx", "prevouts", "idx", "flags", "sigs", "pre", "produced", "stack", "max_ops", "max_items", "max_size", "ok")
     compact = [{k: v for k, v in e.items() if k in keep} for e in evs]
     results, bad, diag = events.validate("C15Trace", compact, batch=150, timeout=6000)
